@@ -344,15 +344,15 @@ def mode_scenarios(tier):
         vectors.add('e' * n)
         vectors.add('n' * n)
         for k in range(n):
-            for c in 'lnxu':
-                if c == 'u' and targets[k] == '<stdin>':
+            for c in 'lnxud':
+                if c in 'ud' and targets[k] == '<stdin>':
                     continue
                 vectors.add('s' * k + c + 's' * (n - k - 1))
         if n >= 2:
             vectors.add(('sl' * n)[:n])
             vectors.add(('ls' * n)[:n])
         if tier != 'thorough' and n > 3:
-            keep = {'s' * n, 'l' * n, 'e' * n, 'n' * n, ('sl' * n)[:n], ('ls' * n)[:n]} | {'s' * k + c + 's' * (n - k - 1) for k in (0, 1, n - 1) for c in 'lnxu'}
+            keep = {'s' * n, 'l' * n, 'e' * n, 'n' * n, ('sl' * n)[:n], ('ls' * n)[:n]} | {'s' * k + c + 's' * (n - k - 1) for k in (0, 1, n - 1) for c in 'lnxud'}
             vectors &= keep
         for vec in sorted(vectors):
             for force in ((None,) if tier != 'thorough' and vec not in ('l' * n, ('sl' * n)[:n]) else (None, '1')):
@@ -380,6 +380,7 @@ def run_modes(model, tier):
                 content[t] = b'SEP = 1\nPAD = 22\n'
         answers = {}
         unreadable = set()
+        dangling = set()
         texts = {}
         for t, c in zip(targets, vec):
             source = STDIN if t == '<stdin>' else content[t]
@@ -399,8 +400,12 @@ def run_modes(model, tier):
                 answers[source] = ('raise', 'SyntaxError')
             elif c == 'u':
                 unreadable.add(t)
+            elif c == 'd':
+                dangling.add(t)       # a symbolic link to nothing, named like a module: listed by the directory, not a file, cannot be opened
         argv = list(paths) + (['--in-place'] if in_place else []) + (['--output', output] if output else [])
-        sc = clirun.Scenario(argv, files=content, dirs=dirs, stdin=STDIN, env=({OVERRIDE: force} if force else {}), answers=answers, unreadable=unreadable,
+        for t in dangling:
+            content.pop(t, None)
+        sc = clirun.Scenario(argv, files=content, dirs=dirs, stdin=STDIN, env=({OVERRIDE: force} if force else {}), answers=answers, unreadable=unreadable, dangling=dangling,
                              default_answer=('raise', 'AssertionError:unexpected-source'))
         r = clirun.run(model, sc)
         label = '%s [%s]%s' % (mlabel, vec, ' override' if force else '')
@@ -444,6 +449,27 @@ def run_modes(model, tier):
                 clause = 'size' if got and isinstance(got[0], bytes) and len(got[0]) > len(source) and not override else 'payload'
                 probs.append(Problem(clause, label, 'stdout receives %r (%s bytes), expected %r' % ([_short(g) for g in got], [len(g) if isinstance(g, bytes) else '?' for g in got], _short(want[0][0]))))
             results.append((label, sc, r, probs))
+    # the size rule under every flag: no option may switch the fall-back to the original off (only the documented environment override does)
+    scen_f, booleans_f, lists_f = flag_scenarios(model, 'quick')
+    SRC = b'a = 1\nb = 22\n'
+    for (flabel, fargv) in scen_f:
+        if invalid_flags(fargv):
+            continue
+        for (kind, text) in (('longer', 'L' + 'x' * len(SRC)), ('longer only in bytes', '\xe9' * (len(SRC) // 2 + 1))):
+            for (mode, extra) in (('to stdout', []), ('--in-place', ['--in-place'])):
+                sc = clirun.Scenario(list(fargv) + ['one.py'] + extra, files={'one.py': SRC}, answers={SRC: ('ok', text)})
+                r = clirun.run(model, sc)
+                label = 'size rule with flags [%s], result %s, %s' % (' '.join(fargv) or 'none', kind, mode)
+                probs = []
+                written = [ev[1] for ev in r.events('stdout-bytes')] + [ev[3] for ev in r.trace if ev[0] == 'write']
+                if r.failed():
+                    probs.append(Problem('failure', label, 'the run fails: %s' % (r.outcome,)))
+                for w in written:
+                    if isinstance(w, bytes) and len(w) > len(SRC):
+                        probs.append(Problem('size', label, '%d bytes are written for a source of %d bytes (the original must be passed through when the result is larger)' % (len(w), len(SRC))))
+                    elif isinstance(w, bytes) and w != SRC:
+                        probs.append(Problem('payload', label, '%r is written, expected the untouched source' % _short(w)))
+                results.append((label, sc, r, probs))
     _CACHE[key] = results
     return results
 
@@ -455,7 +481,7 @@ def judge_mode(label, sc, r, paths, output, in_place, targets, vec, force, texts
     expected = []          # [(destination, {payloads}, optional, source)]
     fail_at = None
     for k, (t, c) in enumerate(zip(targets, vec)):
-        if c in 'xu':
+        if c in 'xud':
             fail_at = k
             break
         source = STDIN if t == '<stdin>' else files[t]
@@ -486,7 +512,7 @@ def judge_mode(label, sc, r, paths, output, in_place, targets, vec, force, texts
             P.append(Problem('failure', label, 'the run fails although every source is readable and minifies: %s' % (r.outcome,)))
     else:
         if not r.failed():
-            P.append(Problem('failure', label, 'the run reports success although %s %s' % (targets[fail_at], 'cannot be read' if vec[fail_at] == 'u' else 'is rejected by minify()')))
+            P.append(Problem('failure', label, 'the run reports success although %s %s' % (targets[fail_at], 'cannot be read' if vec[fail_at] == 'u' else 'is a dangling symbolic link' if vec[fail_at] == 'd' else 'is rejected by minify()')))
         later = set(targets[fail_at + 1:]) - set(targets[:fail_at + 1])
         touched = [ev for ev in r.trace if ev[0] in ('open', 'read', 'write') and ev[1] in later]
         if touched:
